@@ -36,6 +36,27 @@ Definition bind_profile (ks : keyset) (iss : string) : keyset :=
   | other => other
   end.
 
+(* op.NewProvider with its key-set / verifier options, and the verifiers
+   Provider.AccessTokenVerifier / Provider.IDTokenHintVerifier build from it:
+   each key set defaults, on its own, to the storage-backed OpenIDKeySet *)
+Record provider := mkProvider {
+  p_issuer : string;
+  p_storage_keys : option (list jwk);     (* Storage.KeySet; None = error *)
+  p_at_keyset : option keyset;            (* WithAccessTokenKeySet *)
+  p_hint_keyset : option keyset;          (* WithIDTokenHintKeySet *)
+  p_at_algs : list string;                (* WithAccessTokenVerifierOpts(WithSupportedAccessTokenSigningAlgorithms) *)
+  p_hint_algs : list string               (* WithIDTokenHintVerifierOpts(WithSupportedIDTokenHintSigningAlgorithms) *)
+}.
+
+Definition provider_keyset (p : provider) (hint : bool) : keyset :=
+  match (if hint then p_hint_keyset p else p_at_keyset p) with
+  | Some k => k
+  | None => KSOpenID (p_storage_keys p)
+  end.
+
+Definition provider_verifier (p : provider) (hint : bool) : verifier :=
+  mkVerifier (p_issuer p) "" 0 0 0 None None (if hint then p_hint_algs p else p_at_algs p).
+
 Section Verify.
   Variable verify : jwk -> sigentry -> string -> bool.
 
@@ -120,6 +141,10 @@ Section Verify.
     | VJWTAssertion d => verify_jwt_assertion d v ks t m now
     | VRequestObject a => parse_request_object a (v_issuer v) ks t m
     end.
+
+  (* the verifier a provider hands out, run on one token *)
+  Definition run_provider_verifier (p : provider) (hint : bool) (t : token) (m : middle) (now : Z) : outcome :=
+    run_verifier (if hint then VIDTokenHint else VAccessToken) (provider_verifier p hint) (provider_keyset p hint) t m now.
 
   (* allow-list and key set a verifier hands to CheckSignature for claims c *)
   Definition verifier_algs (k : vkind) (v : verifier) : list string :=
